@@ -129,6 +129,10 @@ func runMatcherProperty(t *testing.T, prop string) {
 			}
 		}
 	}
+	// run-level stream: public entry points over the seam against a scripted path
+	if prop == "C01" || prop == "C02" || prop == "C09" {
+		runLevelStream(t, rep, rng.Fork(), env.Scale(150, 3000))
+	}
 	if rep.Failed() {
 		t.Fail()
 	}
